@@ -758,6 +758,11 @@ impl AllReg {
                 let set = sorted(&a);
                 let present = self.pairs.contains_key(&set);
                 let fp0 = fingerprint(&self.h.app);
+                // what the listing returns after this pair as cursor, before the removal
+                let after_cursor = |s: &Self| -> Option<Vec<String>> {
+                    query::<factory::PairsResponse, _>(&s.h.app, &s.h.pool_factory, &factory::QueryMsg::Pairs { start_after: Some(s.infos2(&a)), limit: Some(30) }).ok().map(|r| r.pairs.into_iter().map(|p| p.contract_addr).collect())
+                };
+                let cont_before = if present { after_cursor(self) } else { None };
                 let m = wasm_exec(&pf, &factory::ExecuteMsg::RemovePair { asset_infos: self.infos2(&a) }, vec![]);
                 let r = tx(&mut self.h.app, OWNER, vec![m], Fault::None);
                 ctx.op("remove_pair", r.outcome.kind());
@@ -777,6 +782,16 @@ impl AllReg {
                     self.orphans.push((e.addr, e.order));
                 }
                 ctx.probe("pair_removed");
+                // a cursor that points at an entry removed in the meantime still continues the walk at
+                // the same place: nothing that follows it is skipped or repeated
+                if let Some(before) = cont_before {
+                    let after = after_cursor(self);
+                    if after.as_ref() != Some(&before) {
+                        ctx.fail("C19", "pagination_every_cursor", "cursor_of_removed_pair", None, format!("Pairs listing after the cursor {:?}: {:?} while the pair was registered, {:?} after it was removed", a, before, after));
+                        return;
+                    }
+                    ctx.probe("listing_from_cursor_of_removed_entry");
+                }
                 ctx.state_of(&format!("pairs:{:?}", self.pairs.keys().collect::<Vec<_>>()));
                 self.check_absent_pair(&set, ctx);
                 if !ctx.stopped() {
@@ -815,6 +830,10 @@ impl AllReg {
                 }
                 let set = sorted(&a);
                 let present = self.trios.contains_key(&set);
+                let after_cursor = |s: &Self| -> Option<Vec<String>> {
+                    query::<factory::TriosResponse, _>(&s.h.app, &s.h.pool_factory, &factory::QueryMsg::Trios { start_after: Some(s.infos3(&a)), limit: Some(30) }).ok().map(|r| r.trios.into_iter().map(|p| p.contract_addr).collect())
+                };
+                let cont_before = if present { after_cursor(self) } else { None };
                 let m = wasm_exec(&pf, &factory::ExecuteMsg::RemoveTrio { asset_infos: self.infos3(&a) }, vec![]);
                 let r = tx(&mut self.h.app, OWNER, vec![m], Fault::None);
                 ctx.op("remove_trio", r.outcome.kind());
@@ -829,6 +848,14 @@ impl AllReg {
                 }
                 self.trios.remove(&set);
                 ctx.probe("trio_removed");
+                if let Some(before) = cont_before {
+                    let after = after_cursor(self);
+                    if after.as_ref() != Some(&before) {
+                        ctx.fail("C19", "pagination_every_cursor", "cursor_of_removed_trio", None, format!("Trios listing after the cursor {:?}: {:?} while the trio was registered, {:?} after it was removed", a, before, after));
+                        return;
+                    }
+                    ctx.probe("listing_from_cursor_of_removed_entry");
+                }
                 ctx.state_of(&format!("trios:{:?}", self.trios.keys().collect::<Vec<_>>()));
                 self.check_absent_trio(&set, ctx);
                 if !ctx.stopped() {
@@ -858,6 +885,10 @@ impl AllReg {
             Op::RemoveVault { asset } => {
                 let a = asset % n;
                 let present = self.vaults.contains_key(&a);
+                let after_cursor = |s: &Self| -> Option<Vec<String>> {
+                    query::<vault_factory::VaultsResponse, _>(&s.h.app, &s.h.vault_factory, &vault_factory::QueryMsg::Vaults { start_after: Some(asset_id(&s.ai(a)).into_bytes()), limit: Some(30) }).ok().map(|r| r.vaults.into_iter().map(|p| p.vault).collect())
+                };
+                let cont_before = if present { after_cursor(self) } else { None };
                 let m = wasm_exec(&vf, &vault_factory::ExecuteMsg::RemoveVault { asset_info: self.ai(a) }, vec![]);
                 let r = tx(&mut self.h.app, OWNER, vec![m], Fault::None);
                 ctx.op("remove_vault", r.outcome.kind());
@@ -872,6 +903,14 @@ impl AllReg {
                 }
                 self.vaults.remove(&a);
                 ctx.probe("vault_removed");
+                if let Some(before) = cont_before {
+                    let after = after_cursor(self);
+                    if after.as_ref() != Some(&before) {
+                        ctx.fail("C19", "pagination_every_cursor", "cursor_of_removed_vault", None, format!("Vaults listing after the cursor asset {a}: {:?} while the vault was registered, {:?} after it was removed", before, after));
+                        return;
+                    }
+                    ctx.probe("listing_from_cursor_of_removed_entry");
+                }
                 ctx.state_of(&format!("vaults:{:?}", self.vaults.keys().collect::<Vec<_>>()));
                 if let Ok(Some(x)) = query::<Option<String>, _>(&self.h.app, &vf, &vault_factory::QueryMsg::Vault { asset_info: self.ai(a) }) {
                     ctx.fail("C19", "absent_not_listed", "vault", None, format!("the vault for asset {a} was removed but the factory still answers {x}"));
